@@ -109,6 +109,7 @@ inductive Expr
   | and (x y : Expr) | or (x y : Expr) | not (x : Expr)
   | like (x : Expr) (pat : Str)
   | split (x : Expr) (sep : Str)
+  | splitNE (x : Expr) (sep : Str)   -- `[t for t in x.split(sep) if t]` / `x.split(sep).filter(t => t)`: may be empty
   deriving Repr
 
 def numOp (f : Rat → Rat → Except ErrKind Rat) (x y : Val) : Except ErrKind Val :=
@@ -175,6 +176,11 @@ def Expr.eval : Expr → Ex Val
     let vx ← x.eval e
     match vx with
     | .at (.str s) => if sep = [] then .error .exc else .ok (.list ((splitOn sep s).map Atom.str))
+    | _ => .error .exc
+  | .splitNE x sep, e => do
+    let vx ← x.eval e
+    match vx with
+    | .at (.str s) => if sep = [] then .error .exc else .ok (.list (((splitOn sep s).filter (· ≠ [])).map Atom.str))
     | _ => .error .exc
 
 def Expr.evalBool (x : Expr) : Ex Bool := fun e => (x.eval e).map Val.truthy
